@@ -114,3 +114,46 @@ func init() {
 		"\t\tstrBuf := make([]byte, cell.valueSize)\n\t\tif _, err := buf.Read(strBuf); err != nil {\n\t\t\treturn err\n\t\t}\n\t\tcell.valueBytes = strBuf\n\t\tn.leafCells[n.offsets[i]] = cell\n",
 		"\t\tcell.valueBytes = make([]byte, cell.valueSize)\n\t\tif _, err := buf.Read(cell.valueBytes); err != nil {\n\t\t\treturn err\n\t\t}\n\t\tn.leafCells[n.offsets[i]] = cell\n")
 }
+
+func init() {
+	// round-3 rules: behaviour-preserving variants of the constructs they anchor
+	for _, p := range []string{"C01", "C02", "C08", "C11"} {
+		edit(p, "root-move logging through a helper that appends to the batch", "storage/relation.go",
+			"\t\tvar logs WALBatch\n\t\tif logs, err = rs.updatePageTable(curPage.getFileOffset(), tableName); err != nil {\n\t\t\treturn walLogs, err\n\t\t}\n\t\twalLogs = append(walLogs, logs...)\n\t}\n\n\treturn walLogs, nil\n}\n",
+			"\t\tif walLogs, err = rs.appendRootMove(walLogs, curPage.getFileOffset(), tableName); err != nil {\n\t\t\treturn walLogs, err\n\t\t}\n\t}\n\n\treturn walLogs, nil\n}\n\nfunc (rs *RelationService) appendRootMove(batch WALBatch, off uint64, tableName string) (WALBatch, error) {\n\tlogs, err := rs.updatePageTable(off, tableName)\n\treturn append(batch, logs...), err\n}\n")
+	}
+	for _, p := range []string{"C15", "C16"} {
+		edit(p, "get with the miss handled first", "storage/lru.go",
+			"\tif found {\n\t\tlru.list.MoveToFront(entry)\n\t\treturn entry.Value.(*cacheEntry).val, true\n\t}\n\treturn nil, false\n",
+			"\tif !found {\n\t\treturn nil, false\n\t}\n\tlru.list.MoveToFront(entry)\n\treturn entry.Value.(*cacheEntry).val, true\n")
+		edit(p, "write-back computes the offset once (uint64)", "storage/page.go",
+			"\tif _, err := f.file.WriteAt(buf.Bytes(), int64(node.getFileOffset())); err != nil {\n\t\treturn err\n\t}\n\n\tif err := f.setCache(node.getFileOffset(), node); err != nil {",
+			"\toff := node.getFileOffset()\n\tif _, err := f.file.WriteAt(buf.Bytes(), int64(off)); err != nil {\n\t\treturn err\n\t}\n\n\tif err := f.setCache(off, node); err != nil {")
+	}
+	for _, p := range []string{"C02", "C04", "C11"} {
+		edit(p, "markDirty sets the flag conditionally, the LSN always", "storage/page.go",
+			"\tn.lastLSN = lsn\n\tn.dirty = true\n", "\tif !n.dirty {\n\t\tn.dirty = true\n\t}\n\tn.lastLSN = lsn\n")
+	}
+	for _, p := range []string{"C02", "C03", "C17"} {
+		edit(p, "duplicate-key message names the page, still wrapped", "storage/btree.go",
+			"func (b *BTree) insertLeaf(parent *btreeNode, curNode *btreeNode, key uint32, nextLSN uint64, value []byte) error {\n\toffset, found := curNode.findCellOffsetByKey(key)\n\tif found {\n\t\treturn fmt.Errorf(\"%w for key: %d\", errKeyAlreadyExists, key)",
+			"func (b *BTree) insertLeaf(parent *btreeNode, curNode *btreeNode, key uint32, nextLSN uint64, value []byte) error {\n\toffset, found := curNode.findCellOffsetByKey(key)\n\tif found {\n\t\treturn fmt.Errorf(\"key %d (page %d): %w\", key, curNode.getFileOffset(), errKeyAlreadyExists)")
+	}
+	edit("C10", "presence flag set after the value", "sql/parser.go",
+		"\t\t\tlc.LimitActive = true\n\t\t\tlimit, err := p.requireInt()\n\t\t\tif err != nil {\n\t\t\t\treturn lc, err\n\t\t\t}\n\t\t\tlc.Limit = int(limit)\n",
+		"\t\t\tlimit, err := p.requireInt()\n\t\t\tif err != nil {\n\t\t\t\treturn lc, err\n\t\t\t}\n\t\t\tlc.Limit, lc.LimitActive = int(limit), true\n")
+	edit("C20", "escape skip written as cur += 1", "cmd/console/go_terminal.go",
+		"\t\t\t\tcur++ // skip the escaped character\n", "\t\t\t\tcur += 1 // skip the escaped character\n")
+	edit("C20", "statements handed on through an alias", "cmd/console/go_terminal.go",
+		"\t\t\tline = append(line, stmts...)\n", "\t\t\tout := stmts\n\t\t\tline = append(line, out...)\n")
+	edit("C17", "USE probes the log path too before refusing", "storage/relation.go",
+		"\tif !exists {\n\t\treturn nil, ErrDBNotExist\n\t}\n\tfs, err := newFileStore(path, true)",
+		"\tif _, _, werr := walFilePath(dbName); werr != nil {\n\t\treturn nil, werr\n\t}\n\tif !exists {\n\t\treturn nil, ErrDBNotExist\n\t}\n\tfs, err := newFileStore(path, true)")
+	edit("C14", "BTree.insert advances the counters through locals", "storage/btree.go",
+		"\tif err := b.store.incrementLastKey(); err != nil {\n\t\treturn 0, nextLSN, err\n\t}\n",
+		"\tif kerr := b.store.incrementLastKey(); kerr != nil {\n\t\treturn 0, nextLSN, kerr\n\t}\n")
+	for _, p := range []string{"C05", "C18"} {
+		edit(p, "offset/limit through locals, no arithmetic", "engine/select.go",
+			"\t\trows = offset(int(q.LimitOffsetClause.Offset), rows)\n", "\t\tskip := int(q.LimitOffsetClause.Offset)\n\t\trows = offset(skip, rows)\n")
+	}
+}
